@@ -284,15 +284,17 @@ def parse_rvalue(s):
             k = f.index(": ")
             fields.append((f[:k].strip(), parse_operand(f[k + 2:])))
         return ("agg_named", m.group(1).strip(), fields)
-    m = re.match(r"^(.+?)\((.*)\)$", s)
-    if m and _balanced(m.group(2)):
-        path = m.group(1).strip()
-        if re.match(r"^[\w:<>, &'\[\]();+-]+$", path) and not path.startswith("const"):
-            try:
-                ops = [parse_operand(x) for x in split_top(m.group(2))]
-                return ("agg_tuple", path, ops)
-            except ValueError:
-                pass
+    if s.endswith(")"):
+        k = _match_open(s)
+        if k is not None and k > 0:
+            path, inner = s[:k].strip(), s[k + 1:-1]
+            if re.match(r"^[\w:<>, &'\[\]();+-]+$", path) and not path.startswith("const"):
+                try:
+                    ops = [parse_operand(x) for x in split_top(inner)]
+                    if all(o[0] != "fnitem" for o in ops):
+                        return ("agg_tuple", path, ops)
+                except ValueError:
+                    pass
     if re.match(r"^[\w:<>, &'\[\]();+-]+$", s):
         return ("agg_unit", s)
     return ("raw", s)
